@@ -264,10 +264,12 @@ func (p *nriPlugin) Synchronize(ctx context.Context, pods []*api.PodSandbox, con
 		p.dump(out, event, updates, retErr)
 	}()
 
+	m := p.resmgr
+
+	m.Lock()
+	defer m.Unlock()
 	b := metrics.Block()
 	defer b.Done()
-
-	m := p.resmgr
 
 	allocated, released, err := p.syncWithNRI(pods, containers)
 	if err != nil {
